@@ -266,6 +266,17 @@ pub fn check_program(model: &mut Model, report: &mut Report, cfg: &Cfg, code: &s
         report.hist("inject_refines_whole_region", bucket);
     }
 
+    if cfg.rule_name == "remove_assertions" && cfg.oracle {
+        let w = model.ask(&format!("c17.wholeassert {}", j.sexp0));
+        let bucket = match w.as_str() {
+            "(true true)" => "inside",
+            "(false true)" | "(false false)" => "outside: program declares or assigns assert",
+            "(true false)" => "outside: a round without a link (zero or >= 2 arguments in expression position, kept non-call or dropped non-atom argument, select alias)",
+            _ => panic!("c17.wholeassert protocol error: {}", w),
+        };
+        report.hist("assert_refines_whole_region", bucket);
+    }
+
     // ---- oracle (between environments)
     let mut oracle_failed = false;
     if cfg.oracle {
